@@ -3,7 +3,23 @@
 use std::io::Write;
 use std::path::{Path, PathBuf};
 use std::process::{Command, Stdio};
+use std::sync::atomic::{AtomicBool, AtomicUsize, Ordering};
+use std::sync::Arc;
 use std::time::{Duration, Instant};
+
+/// Subprocesses of this (worker) process that had to be killed so far. After two, the remaining
+/// ones get 5 s each: a change that makes `lace` hang is reported from the first cases, the rest
+/// of the enumeration must not take a minute per case.
+static KILLED: AtomicUsize = AtomicUsize::new(0);
+/// Captured output per stream is cut (and the child killed) beyond this: a child that floods its
+/// output must not exhaust the host's memory.
+const OUTPUT_CAP: usize = 8 << 20;
+
+/// True once six subprocesses of this worker had to be killed: large enumerations stop launching
+/// more (each killed one is reported; the rest is recorded as not run).
+pub fn too_many_kills() -> bool {
+    KILLED.load(Ordering::Relaxed) >= 6
+}
 
 #[derive(Debug, Clone, PartialEq, Eq)]
 pub struct Run {
@@ -70,7 +86,7 @@ impl Lace {
             .env("HOME", &self.cwd)
             .env("XDG_CACHE_HOME", self.cwd.join("cache"))
             .env("PATH", "/usr/bin:/bin")
-            .env("LACE_VERIF_FUEL", "20000000")
+            .env("LACE_VERIF_FUEL", "5000000")
             .stdin(Stdio::piped())
             .stdout(Stdio::piped())
             .stderr(Stdio::piped());
@@ -83,25 +99,39 @@ impl Lace {
             let _ = si.write_all(stdin);
         }
         // Reader threads avoid pipe deadlocks; a generous wall clock guards against hangs.
-        let mut so = child.stdout.take().unwrap();
-        let mut se = child.stderr.take().unwrap();
-        let t1 = std::thread::spawn(move || {
-            let mut v = Vec::new();
-            let _ = std::io::Read::read_to_end(&mut so, &mut v);
-            v
-        });
-        let t2 = std::thread::spawn(move || {
-            let mut v = Vec::new();
-            let _ = std::io::Read::read_to_end(&mut se, &mut v);
-            v
-        });
+        let so = child.stdout.take().unwrap();
+        let se = child.stderr.take().unwrap();
+        let flooded = Arc::new(AtomicBool::new(false));
+        fn capture(mut r: impl std::io::Read + Send + 'static, flooded: Arc<AtomicBool>) -> std::thread::JoinHandle<Vec<u8>> {
+            std::thread::spawn(move || {
+                let mut v = Vec::new();
+                let mut buf = [0u8; 65536];
+                loop {
+                    match r.read(&mut buf) {
+                        Ok(0) | Err(_) => break,
+                        Ok(n) => {
+                            if v.len() < OUTPUT_CAP {
+                                v.extend_from_slice(&buf[..n]);
+                            } else {
+                                flooded.store(true, Ordering::SeqCst); // keep draining so the child is not blocked
+                            }
+                        }
+                    }
+                }
+                v
+            })
+        }
+        let t1 = capture(so, flooded.clone());
+        let t2 = capture(se, flooded.clone());
+        let timeout_s = if KILLED.load(Ordering::Relaxed) >= 2 { timeout_s.min(5) } else { timeout_s };
         let start = Instant::now();
         let mut timed_out = false;
         let status = loop {
             match child.try_wait().expect("wait") {
                 Some(s) => break s,
                 None => {
-                    if start.elapsed() > Duration::from_secs(timeout_s) {
+                    if start.elapsed() > Duration::from_secs(timeout_s) || flooded.load(Ordering::SeqCst) {
+                        KILLED.fetch_add(1, Ordering::Relaxed);
                         let _ = child.kill();
                         timed_out = true;
                         break child.wait().expect("wait");
